@@ -289,6 +289,9 @@ func runPathSched(prog *ssa.Program, fn *ssa.Function, cfg ExploreConfig, solver
 			}
 		case unsupported:
 			p.endKind, p.endMsg = "unsupported", string(r)
+			if os.Getenv("VERIF_WHERE") != "" {
+				p.endMsg += " @ " + clip(p.internalAt, 500)
+			}
 		case encErr:
 			p.endKind, p.endMsg = "unsupported", string(r)
 		case targetPanic:
